@@ -10,11 +10,11 @@
     libcst_transformer.py and the on_result_found bodies as written):
       C16_replace_args_frame, C16_replace_args_is_spec, C16_replace_args_frame_any,
       C16_documented_lists_frame (instance at Tables.newargs_expr),
-      C16_add_arg_frame, C16_call_target_frame, C16_swap_callee_frame, C16_process_sandbox_frame, C16_https_frame,
-      C16_multiset_delta, C16_multiset_delta_tree (whole expression trees, any number of selected calls),
+      C16_add_arg_frame_partial, C16_call_target_frame_partial, C16_swap_callee_frame_partial, C16_process_sandbox_frame_partial, C16_https_frame,
+      C16_multiset_delta, C16_multiset_delta_tree_partial (whole expression trees, any number of selected calls),
       C16_nested_guarded (no selected call below a selected call => as-written = rebuilt-from-updated_node),
       C16_pyyaml_edit (table-indexed: the documented edit for the repaired update_call, the refutation for the pinned one),
-      C16_pyyaml_frame, C16_limit_readline_frame,
+      C16_pyyaml_frame_partial, C16_limit_readline_frame_partial,
       C07_replace_args_idempotent, C07_cookie_idempotent.
     Deviations of the faithful model (each confirmed on the real implementation by harness/c16.py):
       C16_nested_refuted / C07_nested_refuted (kf_nested_selected_calls), C16_pyyaml_drops_args,
@@ -23,9 +23,26 @@
       C16_limit_readline_overwrites (unreachable end to end: the detector only reports `readline()`).
     jwt-decode-verify's `options={...}` dict (Model/JwtOpts.v, shape-tied to jwt_decode_verify.py by the fragment
     args_jwt_opts): C16_jwt_opts_frame, C16_jwt_spread_preserved, C16_jwt_opts_multiset, C16_jwt_options_arg_frame.
-    _partial with respect to the full statement: name resolution, imports/dependencies, the detector
-    and everything outside call expressions are not modelled; they are covered by the
-    end-to-end correspondence of harness/c16.py only (tested, not proved). *)
+    Whole trees: C16_edit_is_documented_partial (for the codemods whose edit is a NewArg list with distinct names,
+    the cookie mixin, add_arg_to_call and the repaired harden-pyyaml: rebuilding from updated_node IS the documented edit
+    [rw_spec], which is written without reference to the code), C16_multiset_delta_tree_partial (nothing appears beyond
+    the documented delta), C16_nothing_disappears_tree_partial (nothing disappears except old values the documented edit
+    overwrites).
+
+    Naming (BUILDING.md): every theorem named `_partial` proves LESS than the property's sentence. What is missing:
+      * all of them speak about the model of call expressions only: name resolution, imports/dependencies, the detector
+        and everything outside call expressions are not modelled (tested end to end by harness/c16.py, not proved);
+      * C16_add_arg_frame_partial, C16_call_target_frame_partial, C16_swap_callee_frame_partial,
+        C16_process_sandbox_frame_partial, C16_pyyaml_frame_partial, C16_ssl_frame_partial,
+        C16_limit_readline_frame_partial are DEFINITIONAL: they unfold the model's reading of a one- or two-line
+        on_result_found body (proved by reflexivity).  They say what the model does, not that the code does it; their
+        only tie to the code is the shape fragment of that body plus the differential correspondence;
+      * the tree theorems cover the argument-editing kinds only (arg_kind / lower_kind / documented_kind) and the
+        rebuild-from-updated_node reading [rw_upd]; the code as written [rw] equals it exactly when no selected call
+        lies below a selected call (C16_nested_guarded), otherwise see C16_nested_refuted;
+      * the lower bound excludes limit-readline (replaces the whole list by design) and the pinned harden-pyyaml.
+    The theorems without the suffix (replace_args frame/multiset, jwt options dict, idempotence, the guarded and refuted
+    statements) are full-strength statements about the kernel functions they name. *)
 From CM Require Import Model.Args Spec.ArgsSpec Proofs.ArgsFacts Generated.Tables.
 From CM Require Import Model.JwtOpts Spec.JwtOptsSpec Proofs.JwtOptsFacts.
 From Coq Require Import Lia.
@@ -83,7 +100,7 @@ Example C16_replace_args_example :
 Proof. split; [apply nodupb_NoDup|]; vm_compute; reflexivity. Qed.
 
 (** * add_arg_to_call, update_call_target, callee swap, process sandbox, https *)
-Theorem C16_add_arg_frame : forall m f args name v,
+Theorem C16_add_arg_frame_partial : forall m f args name v,
   add_arg_to_call (ECall m f args) name v = ECall m f (args ++ [mkArg (Some name) 0 0 0 v]) /\
   firstn (length args) (args_of (add_arg_to_call (ECall m f args) name v)) = args /\
   length (args_of (add_arg_to_call (ECall m f args) name v)) = S (length args).
@@ -92,10 +109,10 @@ Proof.
   - rewrite firstn_app, firstn_all, Nat.sub_diag. simpl. apply app_nil_r.
   - rewrite app_length. simpl. apply Nat.add_1_r.
 Qed.
-Print Assumptions C16_add_arg_frame.
+Print Assumptions C16_add_arg_frame_partial.
 
 (** callee replaced by <target>.<same name>, arguments preserved (those of the node that is passed) *)
-Theorem C16_call_target_frame : forall node target nm, call_name node = Some nm ->
+Theorem C16_call_target_frame_partial : forall node target nm, call_name node = Some nm ->
   update_call_target node target None [] = ECall false (EAttr target nm) (args_of node) /\
   (forall repl, repl <> [] -> forall nf, args_of (update_call_target node target nf repl) = repl).
 Proof.
@@ -103,26 +120,26 @@ Proof.
   - unfold update_call_target. rewrite H. reflexivity.
   - intros repl Hr nf. unfold update_call_target. destruct repl; [contradiction|reflexivity].
 Qed.
-Print Assumptions C16_call_target_frame.
+Print Assumptions C16_call_target_frame_partial.
 Example C16_call_target_example :
   call_name (ECall true (EAttr (EName (S_ "random")) (S_ "choice")) [mkArg None 1 0 0 (EName (S_ "xs"))]) = Some (S_ "choice").
 Proof. reflexivity. Qed.
 
 (** url-sandbox / use-defusedxml / harden-pickle-load and secure-random act on updated_node: nothing below is lost *)
-Theorem C16_swap_callee_frame : forall target name o m f args,
+Theorem C16_swap_callee_frame_partial : forall target name o m f args,
   on_result_found (HSwapCallee target name) o (ECall m f args) = ECall m (EAttr target name) args /\
   on_result_found (HTarget target) o (ECall m (EAttr f name) args) = ECall false (EAttr target name) args.
 Proof. intros. split; reflexivity. Qed.
-Print Assumptions C16_swap_callee_frame.
+Print Assumptions C16_swap_callee_frame_partial.
 
 (** sandbox-process-creation: safe_command.run(<callee>, <all arguments in order>); token-wise exactly two additions *)
-Theorem C16_process_sandbox_frame : forall m f args u,
+Theorem C16_process_sandbox_frame_partial : forall m f args u,
   let o := ECall m f args in
   on_result_found HSandbox o u =
     ECall false (EAttr (EName (S_ "safe_command")) (S_ "run")) (mkArg None 0 0 0 f :: args) /\
   toks (on_result_found HSandbox o u) = [TId (S_ "safe_command"); TAttr (S_ "run")] ++ toks o.
 Proof. intros. split; reflexivity. Qed.
-Print Assumptions C16_process_sandbox_frame.
+Print Assumptions C16_process_sandbox_frame_partial.
 
 Theorem C16_https_frame : forall args,
   length (https_updated_args args) = length args /\
@@ -145,19 +162,55 @@ Print Assumptions C16_multiset_delta.
 (** whole expression trees, any number of (possibly nested) selected calls, for the argument-editing codemods,
     when every call is rebuilt from updated_node; by C16_nested_guarded this is the code as written whenever no
     selected call lies below a selected call *)
-Theorem C16_multiset_delta_tree : forall k e t, arg_kind k = true ->
+Theorem C16_multiset_delta_tree_partial : forall k e t, arg_kind k = true ->
   cnt (toks (rw_upd k e)) t <= cnt (toks e) t + nmarked e * cnt (delta_kind k) t.
 Proof. exact rw_upd_count_le. Qed.
-Print Assumptions C16_multiset_delta_tree.
+Print Assumptions C16_multiset_delta_tree_partial.
 
 Theorem C16_nested_guarded : forall k e, nonnested e = true -> rw k e = rw_upd k e.
 Proof. exact rw_nonnested. Qed.
 Print Assumptions C16_nested_guarded.
 
-Corollary C16_multiset_delta_tree_as_written : forall k e t, arg_kind k = true -> nonnested e = true ->
+Corollary C16_multiset_delta_tree_as_written_partial : forall k e t, arg_kind k = true -> nonnested e = true ->
   cnt (toks (rw k e)) t <= cnt (toks e) t + nmarked e * cnt (delta_kind k) t.
 Proof. intros k e t Hk Hn. rewrite (rw_nonnested k e Hn). now apply rw_upd_count_le. Qed.
-Print Assumptions C16_multiset_delta_tree_as_written.
+Print Assumptions C16_multiset_delta_tree_as_written_partial.
+
+Definition w_verify' : hkind := HReplace [mkNew (S_ "verify") (EName (S_ "True")) false].
+Definition w_inner' : expr :=
+  ECall true (EAttr (EName (S_ "requests")) (S_ "get"))
+    [mkArg None 0 0 1 (EConst (S_ """u""")); mkArg (Some (S_ "verify")) 0 0 0 (EName (S_ "False"))].
+
+(** nothing disappears: over whole trees, the tokens of the input that are missing from the output are among the old
+    values (as they stand after the inner edits) of the arguments that the documented edit of a selected call overwrites *)
+Theorem C16_nothing_disappears_tree_partial : forall k e t, lower_kind k = true ->
+  cnt (toks e) t <= cnt (toks (rw_upd k e)) t + cnt (lost_tree k e) t.
+Proof. exact rw_upd_count_ge. Qed.
+Print Assumptions C16_nothing_disappears_tree_partial.
+Corollary C16_nothing_disappears_tree_as_written_partial : forall k e t, lower_kind k = true -> nonnested e = true ->
+  cnt (toks e) t <= cnt (toks (rw k e)) t + cnt (lost_tree k e) t.
+Proof. intros k e t Hk Hn. rewrite (rw_nonnested k e Hn). now apply rw_upd_count_ge. Qed.
+Print Assumptions C16_nothing_disappears_tree_as_written_partial.
+(** an unselected tree loses nothing at all *)
+Example C16_nothing_disappears_example :
+  lower_kind w_verify' = true /\ lost_tree w_verify' w_inner' = [TKw (S_ "verify"); TId (S_ "False")] /\
+  lost_tree w_verify' (EAttr (ECall false (EName (S_ "f")) [mkArg None 1 0 0 (EName (S_ "xs"))]) (S_ "y")) = [].
+Proof. repeat split. Qed.
+
+(** the model of the documented kinds is the documented edit, call by call and over whole trees *)
+Theorem C16_edit_is_documented_partial : forall k, documented_kind k = true ->
+  (forall u, on_result_found_upd k u = spec_call k u) /\
+  (forall e, rw_upd k e = rw_spec k e) /\
+  (forall e, nonnested e = true -> rw k e = rw_spec k e).
+Proof.
+  intros k Hk. split; [apply call_edit_documented; exact Hk|]. split; [intros e; apply rw_upd_is_spec; exact Hk|].
+  intros e Hn. rewrite (rw_nonnested k e Hn). apply rw_upd_is_spec. exact Hk.
+Qed.
+Print Assumptions C16_edit_is_documented_partial.
+(** every NewArg list extracted from the source on this run is a documented kind *)
+Example C16_edit_is_documented_tables :
+  forallb (fun row => documented_kind (HReplace (snd row))) newargs_expr = true /\ documented_kind HCookie = true.
+Proof. split; vm_compute; reflexivity. Qed.
 
 (** * witnesses *)
 Definition w_verify : hkind := HReplace [mkNew (S_ "verify") (EName (S_ "True")) false].
@@ -201,12 +254,12 @@ Proof. exact cookie_idempotent. Qed.
 Print Assumptions C07_cookie_idempotent.
 
 (** * harden-pyyaml: update_call as on the pinned tree indexes arguments by position (variant PyyamlByIndex) *)
-Theorem C16_pyyaml_frame : forall safe a0 a1,
+Theorem C16_pyyaml_frame_partial : forall safe a0 a1,
   pyyaml_args PyyamlByIndex [] safe = [mkArg (Some (S_ "Loader")) 0 0 0 safe] /\
   pyyaml_args PyyamlByIndex [a0] safe = [a0; mkArg (Some (S_ "Loader")) 0 0 0 safe] /\
   pyyaml_args PyyamlByIndex [a0; a1] safe = [a0; set_value a1 safe].
 Proof. intros. repeat split. Qed.
-Print Assumptions C16_pyyaml_frame.
+Print Assumptions C16_pyyaml_frame_partial.
 
 (** whatever the call, exactly two arguments come back: a third one is dropped *)
 Theorem C16_pyyaml_drops_args :
@@ -288,19 +341,19 @@ Proof.
 Qed.
 Print Assumptions C16_ssl_two_positional.
 (** the shapes on which it is right: no argument, one positional, or protocol= present *)
-Theorem C16_ssl_frame : forall safe m f v s l sp' l',
+Theorem C16_ssl_frame_partial : forall safe m f v s l sp' l',
   on_result_found_upd (HSslTls safe) (ECall m f []) = ECall m f [mkArg (Some (S_ "protocol")) 0 0 0 safe] /\
   on_result_found_upd (HSslTls safe) (ECall m f [mkArg None s sp' l v]) = ECall m f [mkArg None 0 0 0 safe] /\
   on_result_found_upd (HSslTls safe) (ECall m f [mkArg (Some (S_ "protocol")) 0 sp' l' v]) =
-    ECall m f [mkArg (Some (S_ "protocol")) 0 sp' 0 safe] /\ l = l.
+    ECall m f [mkArg (Some (S_ "protocol")) 0 sp' 0 safe].
 Proof. intros. repeat split. Qed.
-Print Assumptions C16_ssl_frame.
+Print Assumptions C16_ssl_frame_partial.
 
 (** * limit-readline: update_arg_target replaces the whole list *)
-Theorem C16_limit_readline_frame : forall lim o m f,
+Theorem C16_limit_readline_frame_partial : forall lim o m f,
   on_result_found (HLimitReadline lim) o (ECall m f []) = ECall m f [mkArg None 0 0 0 lim].
 Proof. reflexivity. Qed.
-Print Assumptions C16_limit_readline_frame.
+Print Assumptions C16_limit_readline_frame_partial.
 Theorem C16_limit_readline_overwrites : forall lim o m f a args,
   args_of (on_result_found (HLimitReadline lim) o (ECall m f (a :: args))) = [mkArg None 0 0 0 lim].
 Proof. reflexivity. Qed.
